@@ -6,7 +6,7 @@ SPEC = dict(
     proof_files=['Proofs/StepsFloat.v', 'Proofs/StepsSeg.v', 'Proofs/StepsMono.v', 'Model/Curves.v', 'Proofs/CurveFloat.v', 'Proofs/CurveFn.v', 'Proofs/CurveMono.v', 'Proofs/CurveSteps.v',
                  'Proofs/CurveLin.v', 'Proofs/CurveLinMono.v',
                  'Drv/CurvesMono.v', 'Drv/CurvesCtrl.v'],
-    tie_vo=['Proofs/LeafTie.vo', 'Proofs/ConstsTie_basic.vo', 'Proofs/ConstsTie_clamp.vo'],
+    tie_vo=['Proofs/LeafTie.vo', 'Proofs/ConstsTie_basic.vo', 'Proofs/ConstsTie_clamp.vo', 'Proofs/LeafTie2_functionAgg.vo', 'Proofs/LeafTie2_linearEval.vo', 'Proofs/LeafTie2_clampTarget.vo', 'Proofs/LeafTie2_rescaleTarget.vo', 'Proofs/LeafTie2_DirectCycle.vo'],
     extra_driver_files=['curves'],
     drivers=[dict(name='curvesmono', drv_mod='Drv.CurvesMono', drv_file='Drv/CurvesMono.v', shard=50,
                   args={'quick': ['n=700'], 'thorough': ['n=12000']}, timeout={'quick': 600, 'thorough': 3000}),
